@@ -4,8 +4,10 @@ Each prompt holds ONLY the property text, the task, how to run things, and a one
 (tools/explored.json) - nothing else from /verif."""
 import json, os, sys
 H = os.path.dirname(os.path.dirname(os.path.abspath(__file__)))
-root = sys.argv[1]
-pids = sys.argv[2:] or [f'C{i:02d}' for i in range(1, 21)]
+plain = '--plain' in sys.argv
+args = [a for a in sys.argv[1:] if not a.startswith('--')]
+root = args[0]
+pids = args[1:] or [f'C{i:02d}' for i in range(1, 21)]
 props = {json.loads(l)['id']: json.loads(l) for l in open(os.path.join(H, 'properties.jsonl'))}
 explored = json.load(open(os.path.join(H, 'tools', 'explored.json')))
 os.makedirs(root, exist_ok=True)
@@ -13,6 +15,7 @@ for pid in pids:
     p = props[pid]
     wt = f'{root}/{pid}'
     ex = '\n'.join(f'  - {e}' for e in explored.get(pid, []))
+    outside = '' if plain else ('At least ONE of your two changes must live OUTSIDE the function(s) that obviously implement the property: in a helper, a utility, a parameter / loader class, a constructor or a data table that the property\'s code depends on (follow the call chain two or three levels down or up), so that the property breaks although its own code is untouched. ')
     text = f"""You are helping evaluate a verification effort for the open-source project oopt-gnpy (GNPy: a Python optical-network simulator: GSNR via Gaussian-noise/Raman models, amplifier auto-design, path computation, spectrum assignment).
 
 You have your OWN scratch git worktree of the project at: {wt}   (work ONLY inside this directory; never touch /repo or /verif, never read /verif).
@@ -37,7 +40,7 @@ For each change also write a DEMONSTRATION: a small standalone pytest file (demo
 ALREADY EXPLORED (do NOT repeat these or close variants of them; earlier rounds produced them):
 {ex}
 In particular do NOT produce: another cache / memoisation of a result; another `x or default` / truthiness test on a number; another value carried from one loop iteration to the next; another dropped unit conversion; another `break` / `continue` / early-return slip in a loop; another statement moved under a logging / verbose guard; another in-place mutation of a shared list through an alias; another operand typo in compare_reqs.
-Produce changes of a DIFFERENT nature: other functions / other clauses of the property. At least ONE of your two changes must live OUTSIDE the function(s) that obviously implement the property: in a helper, a utility, a parameter / loader class, a constructor or a data table that the property's code depends on (follow the call chain two or three levels down or up), so that the property breaks although its own code is untouched. Prefer, where you can: (i) a change in the ORDER of two operations, or an operation moved across a branch / loop boundary, (ii) a boundary or off-by-one in an index, a slice, a range or a comparison that only matters at an edge, (iii) a wrong-but-plausible sibling (east/west, previous/next, min/max, first/last, input/output, per-channel/total) at ONE of several sites, (iv) a shallow copy / alias where a copy is needed (or state left on a shared object), (v) an exception path or an early return that skips an update.
+Produce changes of a DIFFERENT nature: other functions / other clauses of the property. {outside}Prefer, where you can: (i) a change in the ORDER of two operations, or an operation moved across a branch / loop boundary, (ii) a boundary or off-by-one in an index, a slice, a range or a comparison that only matters at an edge, (iii) a wrong-but-plausible sibling (east/west, previous/next, min/max, first/last, input/output, per-channel/total) at ONE of several sites, (iv) a shallow copy / alias where a copy is needed (or state left on a shared object), (v) an exception path or an early return that skips an update.
 IMPORTANT: never use `pkill` / `killall` or kill processes you did not start by PID (other jobs run the same commands on this machine). Never use `git stash` (the stash is shared between worktrees); use `git diff > file`, `git checkout -- gnpy`, `git apply file`.
 
 HOW TO RUN THINGS
